@@ -891,6 +891,17 @@ def cmd_magics(args):
                 got = M.magic2int(M.magics[name])
                 if got != fm:
                     acc.mismatch("C08|release-name|wrong-magic|%s.%s" % key, name=name, got=got, want=fm)
+                # ... and sysinfo2magic() of that release's sys.version_info must give the same magic
+                vi = (int(mm.group(1)), int(mm.group(2)), int(mm.group(3)), "final", 0)
+                acc.evaluations += 1
+                acc.count("c08_sysinfo2magic_of_release_names")
+                try:
+                    got2 = M.magic2int(M.sysinfo2magic(vi))
+                except Exception as e:
+                    acc.mismatch("C08|release-name|sysinfo2magic-raises:%s" % type(e).__name__, name=name)
+                else:
+                    if got2 != fm:
+                        acc.mismatch("C08|release-name|sysinfo2magic-wrong|%s.%s" % key, name=name, got=got2, want=fm)
         acc.distinct.add(sha(["name", name]))
 
     # (5) installed interpreters
@@ -949,6 +960,19 @@ def cmd_tables(args):
             seen[name] = table_dump(mod)
         out["lookups"][str(key)] = name
     out["tables"] = seen
+    # the lookup itself: which table each version name / (version, variant) pair reaches
+    from xdis.magics import canonic_python_version
+
+    out["canonic"] = dict((str(k), str(canonic_python_version.get(k, k))) for k in op_imports)
+    out["get_opcode_module"] = {}
+    pairs = set((tuple(t["version_tuple"][:2]), t["is_pypy"]) for t in seen.values())
+    for vt, pypy in sorted(pairs):
+        for variant in (None, "pypy"):
+            k = "%d.%d/%s" % (vt[0], vt[1], variant)
+            try:
+                out["get_opcode_module"][k] = get_opcode_module(vt + (0, "final"), variant).__name__
+            except Exception as e:
+                out["get_opcode_module"][k] = "raises:" + type(e).__name__
     # what get_opcode hands out for each reference version
     out["get_opcode"] = {}
     for v in args.get("versions", []):
@@ -2536,6 +2560,9 @@ def cmd_marshsynth(args):
         acc.evaluations += 1
         data = binascii.unhexlify(st["hex"])
         labels = st["labels"]
+        for l in labels:
+            if l.startswith("big:"):
+                acc.count("c10_string_above_64KiB_decoded:" + l.split(":")[1])
         try:
             fp = io.BytesIO(data)
             co = um.load_code(fp, magic_int)
@@ -2612,7 +2639,7 @@ def cmd_freeze(args):
         table = dict(pairs) if c["form"] == "dict" else [tuple(p) for p in pairs]
         rec = {}
         try:
-            p = make_portable(ctype, c["code_len"], c["lines"][0], table)
+            p = make_portable(ctype, c["code_len"], c.get("firstlineno", c["lines"][0]), table)
             p = p.freeze()
             enc = p.co_linetable if ctype == "Code310" else p.co_lnotab
             if isinstance(enc, str):
